@@ -31,15 +31,23 @@ checks = {
  "C17": dict(level="exploration", ref="3 C17", tech="runtime monitoring: per-group delivery ledger (message id -> member) over the real router's forwards: disjointness, per-member order, completeness at quiescence", note=S4_NOTE + " Replays of histories that used the Random balancing strategy may not reproduce (the router draws from thread_rng).",
              text="Per shared group: no message to two members or twice to one (redelivery allowed only for forwards unacknowledged by a connection that ended), per-member acceptance order, nobody receives through a group it left, and at quiescent points every message accepted while the group stayed non-empty has gone to some member; three balancing strategies, QoS 0-2, member churn."),
 }
+S3_NOTE = ("Trusted base: the scripted broker and the M-client model of the harness; the transport hook (verif-hooks: in-memory connector, everything after the socket is the "
+           "production path); tokio's paused clock (virtual time advances only when every task is blocked). The wire is decoded with the broker's codec, not the client's. "
+           "tokio::select! polls its branches in random order, so exact ties between two ready branches are never judged. Held on the scenarios counted in the evidence file.")
+checks.update({
+ "C12": dict(level="exploration", ref="3 C12", tech="runtime monitoring: all three real copies of matches/valid_filter/valid_topic/has_wildcards called on enumerated and random strings under catch_unwind, judged by a level-by-level MQTT reference matcher and a mutual-agreement oracle", note=S1_NOTE,
+             text="No panic, agreement of the three copies on every input, and conformance with the MQTT matching/validation rules on non-empty model-valid strings; exhaustive over an 8-symbol alphabet (letters, '/', '+', '#', '$', 2- and 3-byte characters) up to a length bound (quick: pairs of <=3 symbols, thorough: <=4; valid pairs <=6; validation on strings <=7), random strings up to 40 symbols beyond."),
+ "C13": dict(level="exploration", ref="3 C13", tech="runtime monitoring: the real CommitLog driven next to a small reference log; every read from every issued cursor compared (items, offset tags, continuation, caught-up), retention bounds, fabricated cursors for the no-panic clause", note=S1_NOTE,
+             text="After every append every previously issued cursor (log tail, entry offsets, continuations; fresh, stale, mid-segment, at boundaries) is read at several lengths including 0 and compared with the reference log; at most the configured number of segments, whole-segment eviction only, stale cursors resume at the oldest retained entry; small scope enumerated (all append-size sequences up to 6/8 appends), random histories beyond."),
+ "C18": dict(level="exploration", ref="3 C18, Appendix B", tech="runtime monitoring under virtual time: the real EventLoop::poll() (v4 and v5) against a scripted broker over an in-memory transport; timestamped wire/event log judged by pure arithmetic on virtual timestamps", note=S3_NOTE,
+             text="PINGREQ at least once per keep-alive interval, failure reported within two intervals after the broker (or the transport) goes silent, no keep-alive failure while every PINGREQ is answered in time, no pings with keep-alive zero, connect/handshake timeouts reported at the configured time; PINGRESP delays {0,K/4,K/2,K-1ms,K+1ms,never}, background traffic phases on a K/8 grid, silence at every grid phase, K in {1,2,5,60}s."),
+})
 pending = {
  "C02": "check being built (client state machine / event loop substrate S2/S3)",
  "C07": "check being built (client state machine / event loop substrate S2/S3)",
  "C10": "check being built (client state machine / event loop substrate S2/S3)",
  "C11": "check being built (event loop substrate S3)",
- "C12": "check being built (S1)",
- "C13": "check being built (S1)",
  "C16": "check being built (full-stack substrate S6)",
- "C18": "check being built (event loop substrate S3, virtual time)",
  "C19": "check being built (full-stack substrate S6)",
  "C20": "check being built (full-stack substrate S6)",
 }
